@@ -17,8 +17,10 @@ EXPLANATION = (
     'occupied: handles+1, sync := sync or opts.sync, callback not called; close: vacant => true untouched, occupied => '
     'handles-1, removed and true iff it reached 0); (R4) mutating actions are awaited inline, spawn_local occurs only for '
     'the streaming reads, shutdown flushes then closes then replies with the store. (R5) the API handlers doc_open / '
-    'doc_close evaluated: one forwarded open / close of the requested document, failure reported. NOT decided: behaviour '
-    'with several concurrent clients beyond the single-consumer loop.'
+    'doc_close evaluated: one forwarded open / close of the requested document, failure reported. (R6) the drop handler '
+    'evaluated on {not open, 1, 2, 5 handles} against a store that refuses while the document is open: a refused drop '
+    'leaves the handle count untouched. NOT decided: behaviour with several concurrent clients beyond the single-consumer '
+    'loop.'
 )
 ASSUMPTIONS = ["the action loop is the only consumer of the action channel", "tracing macro expansions are effect-free"]
 
